@@ -249,8 +249,8 @@ def _shard(args):
     cur, _ = curated()
     lists = lists_for(tier)
     small = [l for l in lists if len(l) <= 2 and depth(l) <= 2]
-    tiny_items = [0, 3, "ab", [2]]
-    tiny = [[tiny_items[i] for i in p] for n in range(3) for p in itertools.product(range(4), repeat=n)]
+    tiny_items = [0, 3, "ab", [2], "", []]   # includes the falsy items 0, "" and []
+    tiny = [[tiny_items[i] for i in p] for n in range(3) for p in itertools.product(range(len(tiny_items)), repeat=n)]
     ar, shapes = cur[key]
     _SCALAR_CACHE.clear()
     if shape == "L":
